@@ -5,7 +5,7 @@ from .. import engine
 from .. import harness as H
 from ..ref import linefile
 
-RULE = ("every file of up to N lines over a 32-line alphabet (moves into/out of the region, printing and "
+RULE = ("every file of up to N lines over a 33-line alphabet (moves into/out of the region, printing and "
         "retracting moves, homing with comment, G92 E0 with comment, deferred codes, a numbered+checksummed line, "
         "leading blanks, blank / blank-only / comment-only lines, handled and unhandled @-commands, G10 tool form, "
         "firmware retract/recover, an arc, T0, an unknown code) x {LF, CRLF} x {last line terminated or not}, "
@@ -25,7 +25,7 @@ ASSUMPTIONS = ["process_line(str) is the observation point (StreamProcessor.read
 LINES = ["G1 X50 Y40", "G1 X70 Y65 E1", "G0 X10 Y10", "G1 X55 Y35 E-1", "G1 E-1 F1800", "G1 E0 F1800",
          "G28 X Y ; home", "G92 E0 ; c", "M117 hi ; msg", "M204 S5", "N3 G1 X10 Y10*7 ; go", "  G1 X20 Y20", "", "   ",
          "; only comment", "@ExcludeRegion disable x", "@ExcludeRegion enable", "@foo", "G10 P1 ; tool", "G10", "G11",
-         "G2 X30 Y10 I10 J0 ; arc", "T0", "M999 ; unk", "G91", "G90 ; abs", "G20", "G1 Z2 F600", "  G10 ; indented", "  @ExcludeRegion disable", "M206 X-30", "G1 X80 Y40 E2"]
+         "G2 X30 Y10 I10 J0 ; arc", "T0", "M999 ; unk", "G91", "G90 ; abs", "G20", "G1 Z2 F600", "  G10 ; indented", "  @ExcludeRegion disable", "M206 X-30", "G1 X80 Y40 E2", "@ExcludeRegion\tdisable"]
 LIVE = {
     "homed": [],
     "in-episode": [("TRAVEL", "I1"), ("RAW", "M117 pending"), ("RAW", "M204 S9")],
